@@ -33,7 +33,9 @@ NYC = zoneinfo.ZoneInfo("America/New_York")
 CONCRETE = {"fold=0 Amsterdam": _dt.datetime(2021, 10, 31, 2, 30, tzinfo=AMS, fold=0), "fold=1 Amsterdam": _dt.datetime(2021, 10, 31, 2, 30, tzinfo=AMS, fold=1), "gap New York": _dt.datetime(2021, 3, 14, 2, 30, tzinfo=NYC),
             "gap fold=1 New York": _dt.datetime(2021, 3, 14, 2, 30, tzinfo=NYC, fold=1), "1969": _dt.datetime(1969, 12, 31, 23, 59, 59, 999999, tzinfo=UTC), "year 1": _dt.datetime(1, 1, 1, tzinfo=UTC),
             "year 9999": _dt.datetime(9999, 12, 31, 23, 59, 59, 999999, tzinfo=UTC), "year 1 +05:00": _dt.datetime(1, 1, 1, 3, tzinfo=_dt.timezone(_dt.timedelta(hours=5))), "year 9999 -05:00": _dt.datetime(9999, 12, 31, 22, tzinfo=_dt.timezone(_dt.timedelta(hours=-5))),
-            "naive": _dt.datetime(2020, 2, 29, 12, 0, 0, 1), "summer Amsterdam": _dt.datetime(2021, 7, 1, 12, 0, tzinfo=AMS)}
+            "naive": _dt.datetime(2020, 2, 29, 12, 0, 0, 1), "summer Amsterdam": _dt.datetime(2021, 7, 1, 12, 0, tzinfo=AMS),
+            "offset +05:30:15": _dt.datetime(2020, 1, 2, 12, 30, 15, 123456, tzinfo=_dt.timezone(_dt.timedelta(hours=5, minutes=30, seconds=15))), "offset -00:00:31": _dt.datetime(1969, 12, 31, 23, 59, 59, 5, tzinfo=_dt.timezone(-_dt.timedelta(seconds=31))),
+            "Amsterdam local mean time 1900 (+00:19:32)": _dt.datetime(1900, 1, 1, 0, 0, 0, tzinfo=AMS), "offset with microseconds": _dt.datetime(2001, 2, 3, 4, 5, 6, 7, tzinfo=_dt.timezone(_dt.timedelta(hours=1, microseconds=500)))}
 TEXTS = {"2020-01-02T03:04:05": (2020, 1, 2, 3, 4, 5, 0, 0.0), "2020-01-02T03:04:05.000006+02:00": (2020, 1, 2, 3, 4, 5, 6, 7200.0), "2020-01-02 03:04:05Z": (2020, 1, 2, 3, 4, 5, 0, 0.0), "2020-01-02T03:04:05.123456789+0200": (2020, 1, 2, 3, 4, 5, 123456, 7200.0),
          "1969-12-31T23:59:59.5-00:30": (1969, 12, 31, 23, 59, 59, 500000, -1800.0)}
 EPOCHS = {0: (1970, 1, 1, 0, 0, 0, 0), 1e9: (2001, 9, 9, 1, 46, 40, 0), -1.5: (1969, 12, 31, 23, 59, 58, 500000), 253402300799: (9999, 12, 31, 23, 59, 59, 0)}
